@@ -8,7 +8,7 @@ at the end of the list may disagree (names of declarations dropped / added on on
 namespace DarkluaModel.Sem.Heap
 
 /-- control results of lists / blocks / last statements: environments agree outside `D` -/
-def ACtl {N : NumOps} (cx : Cx) (D : List DName) : ARel (Ctl N) := fun β c c' =>
+def ACtl {N : NumOps} (cx : Cx) (D : List DName) : ARel N (Ctl N) := fun β c c' =>
   match c, c' with
   | .next e, .next e' => EnvOK cx β D e e'
   | .cont e, .cont e' => EnvOK cx β D e e'
@@ -18,7 +18,7 @@ def ACtl {N : NumOps} (cx : Cx) (D : List DName) : ARel (Ctl N) := fun β c c' =
 
 /-- control results of single statements: the environment of a `continue` is irrelevant (the
 enclosing statement list replaces it) -/
-def ACtlS {N : NumOps} (cx : Cx) (D : List DName) : ARel (Ctl N) := fun β c c' =>
+def ACtlS {N : NumOps} (cx : Cx) (D : List DName) : ARel N (Ctl N) := fun β c c' =>
   match c, c' with
   | .next e, .next e' => EnvOK cx β D e e'
   | .cont _, .cont _ => True
@@ -26,62 +26,68 @@ def ACtlS {N : NumOps} (cx : Cx) (D : List DName) : ARel (Ctl N) := fun β c c' 
   | .ret vs, .ret vs' => vs = vs'
   | _, _ => False
 
-def AOCtlS {N : NumOps} (cx : Cx) (D : List DName) : ARel (Option (Ctl N)) := fun β c c' =>
+def AOCtlS {N : NumOps} (cx : Cx) (D : List DName) : ARel N (Option (Ctl N)) := fun β c c' =>
   match c, c' with
   | none, none => True
   | some c, some c' => ACtlS cx D β c c'
   | _, _ => False
 
 def SoundS (Q : QRel) (cx : Cx) (D : List DName) (x y : Stmt) : Prop :=
-  ∀ (N : NumOps) (call : CallFn N) (ρ : ExtOracle N) (k : Nat) (env env' : Env N) (σ σ' : State N) (β : CellRel),
+  ∀ (N : NumOps) (call : CallFn N) (ρ : ExtOracle N) (k : Nat) (env env' : Env N) (σ σ' : State N) (β : CellRel N),
     CallOK Q cx call → SRel Q cx β σ σ' → EnvOK cx β D env env' →
       RRel Q cx β (ACtlS cx D) (execS call ρ k env x σ) (execS call ρ k env' y σ')
 def SoundSs (Q : QRel) (cx : Cx) (D : List DName) (x y : List Stmt) (D' : List DName) : Prop :=
   DExt D D' ∧
-  ∀ (N : NumOps) (call : CallFn N) (ρ : ExtOracle N) (k : Nat) (env env' : Env N) (σ σ' : State N) (β : CellRel),
+  ∀ (N : NumOps) (call : CallFn N) (ρ : ExtOracle N) (k : Nat) (env env' : Env N) (σ σ' : State N) (β : CellRel N),
     CallOK Q cx call → SRel Q cx β σ σ' → EnvOK cx β D env env' →
       RRel Q cx β (ACtl cx D') (execSs call ρ k env x σ) (execSs call ρ k env' y σ')
 def SoundBranches (Q : QRel) (cx : Cx) (D : List DName) (x y : List (Expr × Block)) : Prop :=
-  ∀ (N : NumOps) (call : CallFn N) (ρ : ExtOracle N) (k : Nat) (env env' : Env N) (σ σ' : State N) (β : CellRel),
+  ∀ (N : NumOps) (call : CallFn N) (ρ : ExtOracle N) (k : Nat) (env env' : Env N) (σ σ' : State N) (β : CellRel N),
     CallOK Q cx call → SRel Q cx β σ σ' → EnvOK cx β D env env' →
       RRel Q cx β (AOCtlS cx D) (execBranches call ρ k env x σ) (execBranches call ρ k env' y σ')
 def SoundL (Q : QRel) (cx : Cx) (D : List DName) (x y : Last) : Prop :=
-  ∀ (N : NumOps) (call : CallFn N) (ρ : ExtOracle N) (k : Nat) (env env' : Env N) (σ σ' : State N) (β : CellRel),
+  ∀ (N : NumOps) (call : CallFn N) (ρ : ExtOracle N) (k : Nat) (env env' : Env N) (σ σ' : State N) (β : CellRel N),
     CallOK Q cx call → SRel Q cx β σ σ' → EnvOK cx β D env env' →
       RRel Q cx β (ACtl cx D) (execLast call ρ k env x σ) (execLast call ρ k env' y σ')
 def SoundB (Q : QRel) (cx : Cx) (D : List DName) (x y : Block) (D' : List DName) : Prop :=
   DExt D D' ∧
-  ∀ (N : NumOps) (call : CallFn N) (ρ : ExtOracle N) (k : Nat) (env env' : Env N) (σ σ' : State N) (β : CellRel),
+  ∀ (N : NumOps) (call : CallFn N) (ρ : ExtOracle N) (k : Nat) (env env' : Env N) (σ σ' : State N) (β : CellRel N),
     CallOK Q cx call → SRel Q cx β σ σ' → EnvOK cx β D env env' →
       RRel Q cx β (ACtl cx D') (execB call ρ k env x σ) (execB call ρ k env' y σ')
 /-- one iteration of `repeat b until c` -/
 def SoundRep (Q : QRel) (cx : Cx) (D : List DName) (b : Block) (c : Expr) (b' : Block) (c' : Expr) : Prop :=
-  ∀ (N : NumOps) (call : CallFn N) (ρ : ExtOracle N) (k : Nat) (env env' : Env N) (σ σ' : State N) (β : CellRel),
+  ∀ (N : NumOps) (call : CallFn N) (ρ : ExtOracle N) (k : Nat) (env env' : Env N) (σ σ' : State N) (β : CellRel N),
     CallOK Q cx call → SRel Q cx β σ σ' → EnvOK cx β D env env' →
       RRel Q cx β (AOCtlS cx D) (repeatStep call ρ k env (fun e s => evalE call ρ k e c s) b σ)
         (repeatStep call ρ k env' (fun e s => evalE call ρ k e c' s) b' σ')
 
 variable {Q : QRel} {cx : Cx} {D : List DName}
 
-theorem ACtl.toS {N : NumOps} {D' : List DName} {β : CellRel} {c c' : Ctl N} (h : ACtl cx D' β c c')
+theorem ACtl.toS {N : NumOps} {D' : List DName} {β : CellRel N} {c c' : Ctl N} (h : ACtl cx D' β c c')
     (hn : ∀ e, c ≠ .next e) : ACtlS cx D β c c' := by
   cases c <;> cases c' <;> simp only [ACtl, ACtlS] at h ⊢ <;> first | exact h | exact absurd rfl (hn _)
 
-theorem ACtlS.shape {N : NumOps} {β : CellRel} {c c' : Ctl N} (h : ACtlS cx D β c c') : CtlShape c c' := by
+theorem ACtlS.shape {N : NumOps} {β : CellRel N} {c c' : Ctl N} (h : ACtlS cx D β c c') : CtlShape c c' := by
   cases c <;> cases c' <;> simp only [ACtlS, CtlShape] at h ⊢ <;> exact h
 
-theorem ACtl.shape {N : NumOps} {β : CellRel} {c c' : Ctl N} (h : ACtl cx D β c c') : CtlShape c c' := by
+theorem ACtl.shape {N : NumOps} {β : CellRel N} {c c' : Ctl N} (h : ACtl cx D β c c') : CtlShape c c' := by
   cases c <;> cases c' <;> simp only [ACtl, CtlShape] at h ⊢ <;> exact h
 
-theorem SoundS.step {a m b} (h : EqS a m) (ih : SoundS Q cx D m b) : SoundS Q cx D a b := by
+theorem SoundS.step {a m b} (h : LeS cx.upto a m) (ih : SoundS Q cx D m b) : SoundS Q cx D a b := by
   intro N call ρ k env env' σ σ' β hc hs he
-  rw [← h N call ρ k env σ]; exact ih N call ρ k env env' σ σ' β hc hs he
-theorem SoundL.step {a m b} (h : EqL a m) (ih : SoundL Q cx D m b) : SoundL Q cx D a b := by
+  cases h N call ρ k env σ with
+  | inl h => rw [h.2]; exact RRel.timeout_left h.1 _
+  | inr h => rw [← h]; exact ih N call ρ k env env' σ σ' β hc hs he
+theorem SoundL.step {a m b} (h : LeL cx.upto a m) (ih : SoundL Q cx D m b) : SoundL Q cx D a b := by
   intro N call ρ k env env' σ σ' β hc hs he
-  rw [← h N call ρ k env σ]; exact ih N call ρ k env env' σ σ' β hc hs he
-theorem SoundB.step {a m b D'} (h : EqB a m) (ih : SoundB Q cx D m b D') : SoundB Q cx D a b D' :=
+  cases h N call ρ k env σ with
+  | inl h => rw [h.2]; exact RRel.timeout_left h.1 _
+  | inr h => rw [← h]; exact ih N call ρ k env env' σ σ' β hc hs he
+theorem SoundB.step {a m b D'} (h : LeB cx.upto a m) (ih : SoundB Q cx D m b D') : SoundB Q cx D a b D' :=
   ⟨ih.1, fun N call ρ k env env' σ σ' β hc hs he => by
-    rw [← h N call ρ k env σ]; exact ih.2 N call ρ k env env' σ σ' β hc hs he⟩
+    cases h N call ρ k env σ with
+    | inl h => rw [h.2]; exact RRel.timeout_left h.1 _
+    | inr h => rw [← h]; exact ih.2 N call ρ k env env' σ σ' β hc hs he⟩
 
 /-! ### statement lists, last statements, blocks -/
 
@@ -127,7 +133,7 @@ theorem SoundB.some {ss ss' l l' D'} (ih : SoundSs Q cx D ss ss' D') (ihl : Soun
     all_goals exact RRel.ok (A := ACtl cx D') hcc h⟩
 
 /-- the result of a nested block seen from the enclosing statement -/
-theorem RRel.blockEnd {N : NumOps} {β β1 : CellRel} {D' : List DName} {env env' : Env N} {c c' : Ctl N}
+theorem RRel.blockEnd {N : NumOps} {β β1 : CellRel N} {D' : List DName} {env env' : Env N} {c c' : Ctl N}
     {σ σ' : State N} (he : EnvOK cx β D env env') (h1 : β.le β1) (h : SRel Q cx β1 σ σ') : ACtl cx D' β1 c c' →
     RRel Q cx β1 (ACtlS cx D)
       (match c with | .next _ => (Res.ok (Ctl.next env) σ : Res N (Ctl N)) | other => .ok other σ)
